@@ -1,7 +1,7 @@
 (* C13 — difficulty retargeting: clamps per era, never zero, monotone cumulative work,
    inverse relation, header validation, asymmetric "sufficiently heavier". *)
 From Coq Require Import ZArith List Bool.
-From Sia Require Import Prim.Result Pow.Model Pow.Proofs.
+From Sia Require Import Prim.Result Pow.Model Pow.Proofs Pow.Total.
 Open Scope Z_scope.
 
 Theorem C13_clamp_finalcut : forall net s ts d', 0 <= p_difficulty s ->
@@ -68,3 +68,29 @@ Theorem C13_heavier_asymmetric : forall s t, 0 <= p_difficulty s -> 0 <= p_diffi
   sufficiently_heavier s t = Ok true -> sufficiently_heavier t s = Ok true -> False.
 Proof. exact heavier_asymmetric. Qed.
 Print Assumptions C13_heavier_asymmetric.
+
+(* ---- applying headers never fails (one step, under the physical guards of Pow/Total.v) ---- *)
+(* v2 eras: difficulty >= 1, Difficulty and TotalWork below 2^240, OakWork below 2^200, OakTime an int64, block interval
+   between 3 ns and 2^44 ns; the next state keeps difficulty >= 1, OakWork >= 0 and adds the difficulty to TotalWork *)
+Theorem C13_apply_header_never_fails_v2 : forall net s ts tt, n_v2_allow net <= child_height s -> guard_v2 net s ->
+  exists s', apply_header net s false ts tt = Ok s' /\
+    1 <= p_difficulty s' /\ p_total_work s' = p_total_work s + p_difficulty s /\ 0 <= p_oak_work s' /\
+    - 2 ^ 63 <= p_oak_time s' < 2 ^ 63.
+Proof. exact apply_header_total_v2. Qed.
+Print Assumptions C13_apply_header_never_fails_v2.
+
+(* target eras: the three targets between 2^64 and 2^256-1, interval between 1 s and 2^44 ns, not the genesis
+   application; for every block and target timestamp *)
+Theorem C13_apply_header_never_fails_legacy : forall net s ts tt, child_height s < n_v2_allow net -> guard_legacy net s ->
+  exists s', apply_header net s false ts tt = Ok s'.
+Proof. exact apply_header_total_legacy. Qed.
+Print Assumptions C13_apply_header_never_fails_legacy.
+
+(* the new target of the target eras is never zero *)
+Theorem C13_target_never_zero : forall net s ts tt, guard_legacy net s -> exists t, adjust_target net s ts tt = Ok t /\ 1 <= t.
+Proof. exact adjust_target_total. Qed.
+Print Assumptions C13_target_never_zero.
+
+Theorem C13_guards_satisfiable : guard_v2 ex_net (ex_state 150) /\ guard_legacy ex_net (ex_state 50).
+Proof. exact (conj guard_v2_holds guard_legacy_holds). Qed.
+Print Assumptions C13_guards_satisfiable.
